@@ -8,14 +8,14 @@ CONSTANTS
   CommitIds <- C_CommitIds
   Users <- C_Users
   Cfgs <- C_Cfgs
-  MaxCalls = 3
-  MaxFlush = 1
-  MaxReopen = 1
+  MaxCalls = 2
+  MaxFlush = 2
+  MaxReopen = 2
   MaxCrash = 0
   MaxFaults = 0
   Concurrent = FALSE
-  WithRejects = TRUE
+  WithRejects = FALSE
 INVARIANTS NoViolation CacheCounterExact ChunksAbut DurableIsPrefix Export
 VIEW View
-CHECK_DEADLOCK FALSE
 ALIAS Alias
+CHECK_DEADLOCK FALSE
